@@ -333,6 +333,27 @@ pub fn op_done() {
     }
 }
 
+/// Worker: leave the schedule without ending the thread (what the sentinel does at thread exit).
+/// The thread may go on using the library afterwards, unscheduled, once `finish` has been called.
+pub fn worker_detach() {
+    let me = tid();
+    if me == NOT_WORKER {
+        return;
+    }
+    let mut g = match SCHED.lock() {
+        Ok(g) => g,
+        Err(p) => p.into_inner(),
+    };
+    if let Some(inner) = g.as_mut() {
+        inner.finished[me] = true;
+        inner.in_op[me] = false;
+    } else {
+        return;
+    }
+    TID.with(|t| t.set(NOT_WORKER));
+    hand_over(&mut g, me, 0);
+}
+
 struct Sentinel;
 impl Drop for Sentinel {
     fn drop(&mut self) {
